@@ -696,7 +696,17 @@ func TestC13(t *testing.T) {
 	if ev.ReplayFile() != "" {
 		var k c13Case
 		if _, err := ev.LoadReplay(&k); err != nil {
-			t.Fatal(err)
+			// the sequential families record their case as a plain key: they are
+			// cheap and deterministic, so the replay runs them again as a whole
+			var key string
+			if _, err2 := ev.LoadReplay(&key); err2 != nil {
+				t.Fatal(err)
+			}
+			c13MixedPeers(t, c)
+			c13HandlerEndOfStream(t, c)
+			c13UnusableClient(t, c)
+			c13TruncatedAfterHonest(t, c)
+			return
 		}
 		solo := c13Solo(t, k)
 		schedRoundRobin = k.RR
@@ -709,6 +719,7 @@ func TestC13(t *testing.T) {
 	c.Bound("threads", map[bool]string{false: "2", true: "2 (one scenario with 3)"}[thorough])
 	c13MixedPeers(t, c)
 	c13HandlerEndOfStream(t, c)
+	c13UnusableClient(t, c)
 	c13TruncatedAfterHonest(t, c)
 	c13LateDelivery(t, c)
 	c13ClientEndOfStream(t, c)
@@ -997,6 +1008,89 @@ func c13TruncatedAfterHonest(t *testing.T, c *ev.Collector) {
 				c.Violation(c13TestName, "no-cross-talk", "phantom-message", tags, key, "%s: the truncated envelope was delivered to the handler as a message of %d bytes", key, len(got[honest]))
 				c.Outcome("violation")
 				return
+			}
+			c.Outcome("ok")
+		})
+	}
+}
+
+// c13UnusableClient: a client whose construction failed (a URL that cannot be
+// parsed, a send compression nobody registered) reports that failure from every
+// call.  Callers tag the errors they are handed (Error.Meta is a mutable map
+// that user code owns once it has the error); no call of any kind may find
+// another call's tag, and no two calls may be handed one error value.
+func c13UnusableClient(t *testing.T, c *ev.Collector) {
+	if s, _ := ev.Shard(); s != 0 {
+		return
+	}
+	builds := map[string]func() *connect.Client[BV, BV]{
+		"bad-url": func() *connect.Client[BV, BV] {
+			return connect.NewClient[BV, BV](&memhttp.Transport{}, "http://mem.test/%zz"+Procedure)
+		},
+		"unknown-send-compression": func() *connect.Client[BV, BV] {
+			return connect.NewClient[BV, BV](&memhttp.Transport{}, BaseURL+Procedure, connect.WithSendCompression("nobody-registered-this"))
+		},
+	}
+	for _, name := range []string{"bad-url", "unknown-send-compression"} {
+		key := "unusable-client/" + name
+		c.Case(key, true)
+		Bubble(t, func() {
+			cl := builds[name]()
+			ctx := context.Background()
+			type got struct {
+				id  string
+				err error
+			}
+			var errs []got
+			call := func(id string, kind Kind) {
+				var err error
+				switch kind {
+				case KUnary:
+					_, err = cl.CallUnary(ctx, connect.NewRequest(&BV{}))
+				case KServer:
+					_, err = cl.CallServerStream(ctx, connect.NewRequest(&BV{}))
+				case KClient:
+					_, err = cl.CallClientStream(ctx).CloseAndReceive()
+				default:
+					_, err = cl.CallBidiStream(ctx).Receive()
+				}
+				errs = append(errs, got{id, err})
+			}
+			g := Guarded(func() {
+				for round := 0; round < 2; round++ {
+					for _, kind := range AllKinds {
+						call(fmt.Sprintf("%s-%d", kind, round), kind)
+					}
+				}
+			})
+			tags := []string{"unusable-client", name}
+			c.AddStates(int64(len(errs)))
+			c.AddTransitions(int64(len(errs)))
+			if g.Hung || g.Panicked {
+				c.Violation(c13TestName, "terminates", "hang-or-panic", tags, key, "%s: hung=%v panic=%v", key, g.Hung, g.Panic)
+				c.Outcome("violation")
+				BailIfStuck(c, g)
+				return
+			}
+			seen := map[*connect.Error]string{}
+			for _, e := range errs {
+				var ce *connect.Error
+				if e.err == nil || !errors.As(e.err, &ce) {
+					c.HarnessError("%s: call %s returned %v, expected the construction failure", key, e.id, e.err)
+					return
+				}
+				if other := ce.Meta().Values("X-Tagged-By"); len(other) > 0 {
+					c.Violation(c13TestName, "no-cross-talk", "foreign-metadata", tags, key, "%s: the error handed to call %s already carried metadata set by call(s) %v: one *connect.Error value is shared by all calls of the client", key, e.id, other)
+					c.Outcome("violation")
+					return
+				}
+				if first, dup := seen[ce]; dup {
+					c.Violation(c13TestName, "no-cross-talk", "shared-error-value", tags, key, "%s: calls %s and %s were handed the same *connect.Error", key, first, e.id)
+					c.Outcome("violation")
+					return
+				}
+				seen[ce] = e.id
+				ce.Meta().Set("X-Tagged-By", e.id)
 			}
 			c.Outcome("ok")
 		})
